@@ -609,6 +609,9 @@ func (n *node) par(i int, op Op) error {
 	c.Fault("overlapped_operations")
 	c.Probes["sched_steps"] += res.Steps
 	c.Probes["sched_switches"] += res.Switches
+	if res.Escapes > 0 {
+		c.Probe("sched_escapes")
+	}
 	if res.Switches > len(tasks) {
 		c.Probe("par_interleaved")
 	}
@@ -922,7 +925,26 @@ func requestWindowSignature(tasks [][]Op, outs [][]subOut, raw, rawBefore *dhcpd
 			otherRemover = otherRemover || (j != a.task && remover[j])
 		}
 		orphan := func(key string, l dhcpd.VerifLease) bool {
-			return otherRemover && !l.IsStatic && l.IP == a.ip && l.HWAddr.String() == a.mac && !was[key+vl(l)+"]"]
+			if !otherRemover || l.IsStatic || l.IP != a.ip || was[key+vl(l)+"]"] {
+				return false
+			}
+			for _, tl := range raw.Leases {
+				if tl.IP == l.IP && !tl.IsStatic && tl.HWAddr.String() == l.HWAddr.String() {
+					// The entry points to a lease of the table.
+					return false
+				}
+			}
+			if l.HWAddr.String() == a.mac {
+				return true
+			}
+			// Both at once: the entry was first re-used for a client that an
+			// overlapped DISCOVER offered the address, then removed.
+			for _, o := range offers {
+				if o.task != a.task && o.ip == a.ip && o.mac == l.HWAddr.String() {
+					return true
+				}
+			}
+			return false
 		}
 		if l, ok := raw.IPIndex[a.ip]; ok && orphan(fmt.Sprintf("addr %s -> [", a.ip), l) {
 			return "par-request-acked-removed-lease", fmt.Sprintf("Listed pattern: %s was acknowledged %s, the table holds no such lease, yet the address index holds an entry [%s] for it: the lease was removed by an overlapped administrator operation between the request's lookup and its commit, and the commit indexed the removed lease.", a.mac, a.ip, vl(l))
